@@ -29,9 +29,23 @@ def generate(tier, rng):
         t = gen.random_itier(rng, tmax=40, maxn=6) if kind == "I" else gen.random_ptier(rng, tmax=40, maxn=6)
         u = rng.random()
         if u < 0.6:
-            ref = gen.random_itier(rng, tmax=40, maxn=5, name="r") if rng.random() < 0.5 else gen.random_ptier(rng, tmax=40, maxn=6, name="r")
+            ref = gen.random_itier(rng, tmax=40, maxn=5, name="r", long_p=0.06) if rng.random() < 0.5 else \
+                gen.random_ptier(rng, tmax=40, maxn=6, name="r", long_p=0.06)
             if rng.random() < 0.05:
                 ref["entries"] = []
+            if len(ref["entries"]) > 30:
+                # a long reference: times of the tier around its first, its last and some middle reference times
+                rts = sorted(set(v for e in ref["entries"] for v in e[:-1]))
+                spots = [rts[0], rts[1], rts[1], rts[-1], rts[-2], rng.choice(rts), rng.choice(rts)]
+                want = set(max(0, x + rng.choice([-2, -1, -1, 0, 1, 1, 2])) for x in rng.sample(spots, 4))
+                if rng.random() < 0.6:
+                    want.add(max(0, rts[1] - 1))          # between the first two reference times, nearer the second
+                want = sorted(want)
+                if kind == "P":
+                    t = dict(t, entries=[[x, "q%d" % i] for i, x in enumerate(want)], min=min(t["min"], want[0]), max=max(t["max"], want[-1]))
+                else:
+                    ents = [[want[i], want[i + 1], "q%d" % i] for i in range(0, len(want) - 1, 2) if want[i] < want[i + 1]]
+                    t = dict(t, entries=ents, min=min([t["min"]] + [e[0] for e in ents]), max=max([t["max"]] + [e[1] for e in ents]))
             if t["entries"] and rng.random() < 0.5 and ref["kind"] == "P":
                 # plant references exactly d away / equidistant
                 d = rng.randint(1, 4)
